@@ -3,7 +3,7 @@
 
 For every /verif/seeded/<id>/: (1) confirm the change in a scratch worktree of /repo HEAD (the 38-test baseline still passes with it,
 demo.py exits 0 without and non-zero with it), (2) apply patch.diff to /repo itself, run the quick check of every property named in
-meta.json "checks", and revert /repo (git checkout -- .).  Nothing is ever committed in /repo.  Evidence files are restored afterwards.
+meta.json "checks", and revert /repo (git checkout -- .).  Nothing is ever committed in /repo.  Evidence and replay files of these runs are written under /tmp/seeded_out (VERIF_OUT).
 usage: python3 tools/run_seeded.py [id-regex]      -> writes seeded/RESULTS.json and prints one line per (seed, check)"""
 import json, os, re, subprocess, sys, tempfile, time
 
@@ -46,7 +46,8 @@ def main():
         try:
             for pid in meta.get("checks", meta["breaks"]):
                 t0 = time.time()
-                r = sh(f"PYTHONDONTWRITEBYTECODE=1 PYTHONPATH={ROOT}:{REPO} timeout 1800 python3-vt -m pyvc.check --property {pid} --tier quick", cwd=ROOT)
+                # VERIF_OUT: evidence and replays of these runs on a changed tree go to a scratch directory, not into /verif
+                r = sh(f"VERIF_OUT=/tmp/seeded_out PYTHONDONTWRITEBYTECODE=1 PYTHONPATH={ROOT}:{REPO} timeout 1800 python3-vt -m pyvc.check --property {pid} --tier quick", cwd=ROOT)
                 viol = [l for l in r.stdout.splitlines() if l.startswith("VIOLATION")]
                 und = [l[:200] for l in r.stdout.splitlines() if l.startswith("UNDECIDED")]
                 entry["checks"][pid] = dict(exit=r.returncode, violations=len(viol), with_failing_input=sum(1 for l in viol if not l.endswith("no-failing-input-found")),
@@ -54,7 +55,6 @@ def main():
                 print(f"{sid} {pid}: exit={r.returncode} violations={len(viol)} demo clean/changed={clean}/{mut} tests: {tests[:20]}", flush=True)
         finally:
             sh(f"git -C {REPO} checkout -- .")
-            sh(f"git -C {ROOT} checkout -- evidence")
         results[sid] = entry
         json.dump(results, open(res_path, "w"), indent=1, sort_keys=True)
     return 0
